@@ -31,7 +31,11 @@ import warnings  # noqa: E402
 warnings.filterwarnings("ignore")
 import numpy as np  # noqa: E402
 
-EXTRA_MODULES = {"C16": ["Dreye.Props.C16Bary"]}
+EXTRA_MODULES = {"C16": ["Dreye.Props.C16Bary", "Dreye.Props.Linalg"], "C06": ["Dreye.Props.Linalg", "Dreye.Props.C06Pivot", "Dreye.Props.C06Bridge", "Dreye.Props.C06Exact"],
+                 "C04": ["Dreye.Props.Cert"], "C08": ["Dreye.Props.Cert"], "C09": ["Dreye.Props.Cert"], "C10": ["Dreye.Props.Cert"]}
+# namespaces (besides Dreye.<prop>) whose theorems count as obligations of a property
+EXTRA_PREFIX = {"C16": ["Dreye.LinalgProps."], "C06": ["Dreye.LinalgProps."], "C04": ["Dreye.Cert."], "C08": ["Dreye.Cert."],
+                "C09": ["Dreye.Cert."], "C10": ["Dreye.Cert."]}
 ALLOWED_AXIOMS = {"propext", "Classical.choice", "Quot.sound"}
 FORBIDDEN = ["sorry", "admit", "native_decide", "bv_decide", "implemented_by", "unsafe ",
              "maxHeartbeats 0", "ofReduceBool"]
@@ -276,7 +280,7 @@ def lean_obligations(prop, tier):
             body = line.split("THEOREM ", 1)[1]
             name, axs = body.split(" : ", 1)
             name = name.strip()
-            if not name.startswith("Dreye.%s." % prop):
+            if not any(name.startswith(pf) for pf in ["Dreye.%s." % prop] + EXTRA_PREFIX.get(prop, [])):
                 continue
             last = name.rsplit(".", 1)[-1]
             if last.startswith("eq_") or last == "eq_def" or "match_" in last or "_private" in name:
